@@ -10,10 +10,10 @@ Definition copy_table_ref : list (string * string * string) :=
   [("model", "named:Model", "other"); ("scores", "map", "make+elem:local:score"); ("values", "map", "make+elem:copyslice:values"); ("objectiveStopData", "map", "make+elem:make"); ("constraintStopData", "map", "make+elem:make"); ("objectiveSolutionData", "map", "make+elem:call:s.objectiveSolutionData.Copy"); ("constraintSolutionData", "map", "make+elem:call:s.constraintSolutionData.Copy"); ("cumulativeValues", "map", "make+elem:copyslice:cumulativeValues"); ("stopToPlanUnit", "slice", "make"); ("random", "pointer", "call:rand.New"); ("plannedPlanUnits", "named:solutionPlanUnitCollectionBaseImpl", "new:newSolutionPlanUnitCollectionBaseImpl+method:add(call:copySolutionPlanUnit)"); ("fixedPlanUnits", "named:solutionPlanUnitCollectionBaseImpl", "new:newSolutionPlanUnitCollectionBaseImpl+method:add(call:copySolutionPlanUnit)"); ("unPlannedPlanUnits", "named:solutionPlanUnitCollectionBaseImpl", "new:newSolutionPlanUnitCollectionBaseImpl+method:add(call:copySolutionPlanUnit)"); ("propositionPlanUnits", "named:solutionPlanUnitCollectionBaseImpl", "new:newSolutionPlanUnitCollectionBaseImpl"); ("vehicleIndices", "slice", "copyslice:vehicleIndices"); ("vehicles", "slice", "clone:vehicles"); ("solutionVehicles", "slice", "clone:solutionVehicles+elem:other"); ("start", "slice", "copyslice:start"); ("slack", "slice", "copyslice:slack"); ("arrival", "slice", "copyslice:arrival"); ("next", "slice", "copyslice:next"); ("stopPosition", "slice", "copyslice:stopPosition"); ("first", "slice", "copyslice:first"); ("stop", "slice", "copyslice:stop"); ("cumulativeTravelDuration", "slice", "copyslice:cumulativeTravelDuration"); ("end", "slice", "copyslice:end"); ("previous", "slice", "copyslice:previous"); ("inVehicle", "slice", "copyslice:inVehicle"); ("last", "slice", "copyslice:last"); ("randomMutex", "named:sync.Mutex", "untouched")].
 
 Definition parallel_solve_shared_ref : list (string * string) :=
-  [("bestSolution", "plain"); ("cancel", "func"); ("ctx", "plain"); ("interpretedParallelSolveOptions", "plain"); ("iterationsLeft", "atomic"); ("parallelCount", "chan"); ("parallelRuns", "plain"); ("reportBestSolution", "func"); ("resultChannel", "chan"); ("solutions", "plain"); ("solutionsMutex", "mutex"); ("syncResultChannel", "chan"); ("totalIterations", "atomic"); ("waitGroup", "wg")].
+  [("bestSolution", "plain"); ("bestSolutionMutex", "mutex"); ("cancel", "func"); ("ctx", "plain"); ("interpretedParallelSolveOptions", "plain"); ("iterationsLeft", "atomic"); ("parallelCount", "chan"); ("parallelRuns", "plain"); ("reportBestSolution", "func"); ("resultChannel", "chan"); ("solutions", "plain"); ("solutionsMutex", "mutex"); ("syncResultChannel", "chan"); ("totalIterations", "atomic"); ("waitGroup", "wg")].
 
 Definition parallel_solve_body_ref : list sk :=
-  [(SIf [(SReturn)] []); (SIf [(SReturn)] []); (SRead "interpretedParallelSolveOptions"); (SIf [(SRead "interpretedParallelSolveOptions")] []); (SRead "interpretedParallelSolveOptions"); (SIf [(SRead "interpretedParallelSolveOptions")] []); (SRead "interpretedParallelSolveOptions"); (SIf [(SRead "interpretedParallelSolveOptions")] []); (SIf [(SIf [(SReturn)] [])] []); (SFor [(SIf [(SReturn)] []); (SIf [(SReturn)] [])]); (SRead "ctx"); (SRead "ctx"); (SRead "interpretedParallelSolveOptions"); (SRead "solutions"); (SRead "interpretedParallelSolveOptions"); (SRead "parallelRuns"); (SIf [(SWrite "parallelRuns")] []); (SRead "parallelRuns"); (SRead "solutions"); (SRead "solutions"); (SFor [(SRead "bestSolution"); (SIf [(SWrite "bestSolution")] [])]); (SRead "bestSolution"); (SCall "Copy"); (SWrite "bestSolution"); (SRead "parallelRuns"); (SRead "bestSolution"); (SSend "resultChannel"); (SRead "interpretedParallelSolveOptions"); (SAtomic "iterationsLeft" "Store"); (SGo [(SDefer [SClose "syncResultChannel"]); (SFor [(SFor [SRead "parallelRuns"; (SSelect [("comm", [SRecv "ctx.Done"; (SWgWait "waitGroup"); (SBreak "Loop")]); ("default", [(SSend "parallelCount"); (SWgAdd "waitGroup"); (SGo [(SDefer [(SRecv "parallelCount"); (SWgDone "waitGroup")]); (SRead "bestSolution"); (SCall "Copy"); (SLock "solutionsMutex"); (SRead "solutions"); (SIf [(SRead "solutions"); (SRead "solutions"); (SRead "solutions"); (SWrite "solutions")] []); (SUnlock "solutionsMutex"); (SRead "parallelRuns"); (SCall "Random"); (SIf [(SCall "panic")] []); (SCallback [(SAtomic "totalIterations" "Add"); (SRead "interpretedParallelSolveOptions"); (SIf [(SCall "cancel")] [])]); (SIf [(SCall "panic")] []); (SAtomic "iterationsLeft" "Add"); (SIf [(SRecv "ctx.Done"); (SReturn)] []); (SRead "ctx"); (SCall "Solve"); (SIf [(SCall "panic")] []); (SRange "solutionChannel" [(SAtomic "totalIterations" "Load"); (SSend "syncResultChannel")])])])])]); (SRead "interpretedParallelSolveOptions"); (SIf [(SWgWait "waitGroup")] [])])]); (SGo [(SDefer [(SAtomic "totalIterations" "Load"); (SClose "resultChannel"); (SRead "bestSolution")]); (SRange "syncResultChannel" [(SIf [(SSend "resultChannel"); (SCall "cancel"); (SContinue)] []); (SRead "bestSolution"); (SIf [(SContinue)] []); (SCall "Copy"); (SWrite "bestSolution"); (SCall "Copy"); (SSend "resultChannel")])]); (SReturn)].
+  [(SIf [(SReturn)] []); (SIf [(SReturn)] []); (SRead "interpretedParallelSolveOptions"); (SIf [(SRead "interpretedParallelSolveOptions")] []); (SRead "interpretedParallelSolveOptions"); (SIf [(SRead "interpretedParallelSolveOptions")] []); (SRead "interpretedParallelSolveOptions"); (SIf [(SRead "interpretedParallelSolveOptions")] []); (SIf [(SIf [(SReturn)] [])] []); (SFor [(SIf [(SReturn)] []); (SIf [(SReturn)] [])]); (SRead "ctx"); (SRead "ctx"); (SRead "interpretedParallelSolveOptions"); (SRead "solutions"); (SRead "interpretedParallelSolveOptions"); (SRead "parallelRuns"); (SIf [(SWrite "parallelRuns")] []); (SRead "parallelRuns"); (SRead "solutions"); (SRead "solutions"); (SFor [(SRead "bestSolution"); (SIf [(SWrite "bestSolution")] [])]); (SRead "bestSolution"); (SCall "Copy"); (SWrite "bestSolution"); (SRead "parallelRuns"); (SRead "bestSolution"); (SSend "resultChannel"); (SRead "interpretedParallelSolveOptions"); (SAtomic "iterationsLeft" "Store"); (SGo [(SDefer [SClose "syncResultChannel"]); (SFor [(SFor [SRead "parallelRuns"; (SSelect [("comm", [SRecv "ctx.Done"; (SWgWait "waitGroup"); (SBreak "Loop")]); ("default", [(SSend "parallelCount"); (SWgAdd "waitGroup"); (SGo [(SDefer [(SRecv "parallelCount"); (SWgDone "waitGroup")]); (SLock "bestSolutionMutex"); (SRead "bestSolution"); (SCall "Copy"); (SUnlock "bestSolutionMutex"); (SLock "solutionsMutex"); (SRead "solutions"); (SIf [(SRead "solutions"); (SRead "solutions"); (SRead "solutions"); (SWrite "solutions")] []); (SUnlock "solutionsMutex"); (SRead "parallelRuns"); (SCall "Random"); (SIf [(SCall "panic")] []); (SCallback [(SAtomic "totalIterations" "Add"); (SRead "interpretedParallelSolveOptions"); (SIf [(SCall "cancel")] [])]); (SIf [(SCall "panic")] []); (SAtomic "iterationsLeft" "Add"); (SIf [(SRecv "ctx.Done"); (SReturn)] []); (SRead "ctx"); (SCall "Solve"); (SIf [(SCall "panic")] []); (SRange "solutionChannel" [(SAtomic "totalIterations" "Load"); (SSend "syncResultChannel")])])])])]); (SRead "interpretedParallelSolveOptions"); (SIf [(SWgWait "waitGroup")] [])])]); (SGo [(SDefer [(SAtomic "totalIterations" "Load"); (SClose "resultChannel"); (SRead "bestSolution")]); (SRange "syncResultChannel" [(SIf [(SSend "resultChannel"); (SCall "cancel"); (SContinue)] []); (SRead "bestSolution"); (SIf [(SContinue)] []); (SCall "Copy"); (SLock "bestSolutionMutex"); (SWrite "bestSolution"); (SUnlock "bestSolutionMutex"); (SCall "Copy"); (SSend "resultChannel")])]); (SReturn)].
 
 Definition pool_vars_ref : list string :=
   ["moveContainerPool"; "solutionGeneratorPool"; "unplanSolutionMove"].
